@@ -924,6 +924,10 @@ func (dc *DirectConnection) WriteSetStatement() error {
 
 	unused := dc.sessionVariables.GetUnusedAndClear()
 	for _, v := range unused {
+		if v.Name() == mysql.TxReadOnly && dc.versionCompare != nil && !dc.versionCompare.LessThanMySQLVersion803 {
+			appendSetVariableToDefault(&setVariableSQL, mysql.TransactionReadOnly)
+			continue
+		}
 		appendSetVariableToDefault(&setVariableSQL, v.Name())
 	}
 
